@@ -12,7 +12,7 @@ import (
 )
 
 func init() {
-	vh.QuietLogs(logger.FatalLevel)
+	vh.QuietLogs(logger.ErrorLevel)
 }
 
 func genUpstream(t *rapid.T, focus string) []vh.UpstreamAttempt {
@@ -173,14 +173,27 @@ func classify(sc Scenario, o *Outcome) (bool, []string) {
 }
 
 func runFor(prop string) func(Scenario) vh.Result {
-	return func(sc Scenario) vh.Result {
+	return func(sc Scenario) (res vh.Result) {
+		vh.Logs.Take()
 		o := Run(sc)
-		res := vh.Result{}
 		if o.Crash != nil {
 			res.Violation, res.NonTrivial = o.Crash, true
 			return res
 		}
+		if o.Hang != "" {
+			res.Violation, res.NonTrivial = vh.Fail("e2e:scenario-hang", "the scenario did not finish within %v\n%s", ScenarioBudget, o.Hang), true
+			return res
+		}
 		res.NonTrivial, res.Classes = classify(sc, o)
+		agentErrors := vh.Logs.Take()
+		defer func() {
+			if res.Violation != nil && agentErrors != "" {
+				if len(agentErrors) > 3000 {
+					agentErrors = agentErrors[:3000]
+				}
+				res.Violation.Msg += "\nerror-level log output of the agent during this scenario:\n" + agentErrors
+			}
+		}()
 		switch prop {
 		case "C01":
 			res.Violation = CheckC01(o)
